@@ -34,9 +34,13 @@ Computed values (round 6): `arithExpr_reads` — `eval` on any arithmetic expres
 plain variables and number literals leaves the state unchanged whatever the result (`eval` on these nodes is
 `numOp`: `Ecal.Lemmas.C06Sites.eval_arith`); `eval_assign_expr_statement_frame` (`v := e` for any reading `e`);
 `computed_body_frame` / `computed_body_leaves_others_alone`: bodies of `let v` and `v := e` statements.
+Read half (round 6): `arithExpr_value_local` — the result of `eval` on such an expression in scope `sc` is the same
+in any two states that agree on `sc` and its ancestors; `computed_body_noninterference` — after invocation A has
+evaluated a fragment body in its sink scope, every such expression invocation B evaluates in its own scopes gives
+exactly the result it gave before (write half + read half, about `eval`, no hypothesis on reads or writes).
 What is NOT here (stated, not proved): `StmtOK` for `if` (needs allocation: `block_scope_keeps_outside` is only
-the single step and `Frame` is size-preserving), for x.* calls, strings, comparisons; and the READ half of
-isolation (the result of the body depends only on the sink's sub-tree and the unchanged declaring chain).
+the single step and `Frame` is size-preserving), for x.* calls, strings, comparisons; the read half for whole
+BODIES (B's statements interleaved with A's; allocation renames indices), hence isolation via `isolation_mod`.
 -/
 namespace Ecal.Props.C11Frame
 open Ecal.Ev
@@ -1017,4 +1021,241 @@ example : IsAssignExpr ["y"] demoComputed :=
       (ArithExpr.arith _ numNode (idNode 120) rfl (Or.inr (Or.inr (Or.inl rfl)))
         (ArithExpr.number _ rfl) (ArithExpr.ident _ _ [120] rfl rfl rfl (by decide))),
     by decide⟩
+/-! ### the read half for expressions, and non-interference of two invocations (round 6) -/
+
+/-- two states agree on `sc` and all its ancestors -/
+def AgreeOn (st st' : St) (sc : Nat) : Prop := ∀ t, Up st sc t → st'.scope t = st.scope t
+
+theorem AgreeOn.parent {st st' : St} {sc p : Nat} (h : AgreeOn st st' sc) (hp : (st.scope sc).parent = some p) :
+    AgreeOn st st' p := fun t ht => h t (Up.step hp ht)
+
+theorem scopeFor_local (st st' : St) (v : String) : ∀ (f sc : Nat), AgreeOn st st' sc →
+    (runM (scopeFor f sc v) st').1 = (runM (scopeFor f sc v) st).1 ∧
+    ∀ s, (runM (scopeFor f sc v) st).1 = .ok (some s) → Up st sc s := by
+  intro f
+  induction f with
+  | zero => intro sc _; simp [scopeFor_zero]
+  | succ f ih =>
+    intro sc hag
+    have hs : st'.scope sc = st.scope sc := hag sc (Up.refl sc)
+    have hd : st'.defines sc v = st.defines sc v := by simp [St.defines, hs]
+    rw [scopeFor_succ, scopeFor_succ, hd, hs]
+    by_cases hdef : st.defines sc v = true
+    · simp only [hdef, if_true, true_and]
+      intro s h
+      injection h with h
+      injection h with h
+      subst h
+      exact Up.refl _
+    · simp only [hdef]
+      cases hp : (st.scope sc).parent with
+      | none => simp
+      | some p =>
+        simp only
+        obtain ⟨h1, h2⟩ := ih p (hag.parent hp)
+        exact ⟨h1, fun s h => Up.step hp (h2 s h)⟩
+
+/-- the result of reading the plain variable `v` from scope `sc`, as a function of the state -/
+def readVar (st : St) (sc : Nat) (v : String) : Except Sig (Val × Bool) :=
+  match (runM (scopeFor 10000 sc v) st).1 with
+  | .ok (some s) => .ok (st.valueIn s v, true)
+  | .ok none => .ok (Val.null, false)
+  | .error e => .error e
+
+theorem getValue_plain_run (sc : Nat) (name vb : List Nat) (st : St) (hn : splitDots name = [vb]) :
+    runM (getValue sc name) st = (readVar st sc (bytesToString vb), st) := by
+  unfold getValue
+  simp only [hn]
+  rw [runM_bind]
+  unfold lookupVar
+  rw [runM_bind]
+  unfold readVar
+  cases hs : runM (scopeFor 10000 sc (bytesToString vb)) st with
+  | mk r1 s1 =>
+    have e1 := scopeFor_state _ _ _ _ _ _ hs
+    subst e1
+    cases r1 with
+    | error e => rfl
+    | ok o =>
+      cases o with
+      | none => rfl
+      | some s =>
+        simp only
+        rw [runM_bind, getScope_run]
+        rfl
+
+theorem readVar_local (st st' : St) (sc : Nat) (v : String) (h : AgreeOn st st' sc) :
+    readVar st' sc v = readVar st sc v := by
+  unfold readVar
+  obtain ⟨h1, h2⟩ := scopeFor_local st st' v 10000 sc h
+  rw [h1]
+  cases hr : (runM (scopeFor 10000 sc v) st).1 with
+  | error e => rfl
+  | ok o =>
+    cases o with
+    | none => rfl
+    | some s =>
+      simp only
+      have := h s (h2 s hr)
+      simp [St.valueIn, this]
+
+/-- the value of `e` in scope `sc` depends only on `sc` and its ancestors: states that agree there give
+    the same result (value or error), for every fuel -/
+def Local (sc : Nat) (e : Ecal.Parse.Node) : Prop :=
+  ∀ f st st', AgreeOn st st' sc → (runM (eval f sc e) st').1 = (runM (eval f sc e) st).1
+
+theorem eval_plain_identifier_run (f sc : Nat) (n : Ecal.Parse.Node) (t : Ecal.Lex.Tok) (vb : List Nat) (st : St)
+    (hname : n.name = "identifier") (ht : n.tok = some t) (hc : n.children.isEmpty = true)
+    (hn : splitDots t.val = [vb]) :
+    runM (eval (f + 2) sc n) st = ((readVar st sc (bytesToString vb)).map (·.1), st) := by
+  unfold eval
+  simp only [hname]
+  unfold evalIdent
+  rw [runM_bind, Ecal.Ev.runM_tokOf, ht]
+  simp only [hc, if_true]
+  rw [runM_bind, getValue_plain_run sc t.val vb st hn]
+  cases readVar st sc (bytesToString vb) <;> rfl
+
+theorem local_plain_identifier (sc : Nat) (n : Ecal.Parse.Node) (t : Ecal.Lex.Tok) (vb : List Nat)
+    (hname : n.name = "identifier") (ht : n.tok = some t) (hc : n.children.isEmpty = true)
+    (hn : splitDots t.val = [vb]) : Local sc n := by
+  intro f st st' hag
+  match f with
+  | 0 => unfold eval; rfl
+  | 1 =>
+    unfold eval
+    simp only [hname]
+    unfold evalIdent
+    rfl
+  | f + 2 =>
+    rw [eval_plain_identifier_run f sc n t vb st' hname ht hc hn,
+        eval_plain_identifier_run f sc n t vb st hname ht hc hn, readVar_local st st' sc _ hag]
+
+theorem local_number (sc : Nat) (n : Ecal.Parse.Node) (hname : n.name = "number") : Local sc n := by
+  intro f st st' _
+  cases f with
+  | zero => unfold eval; rfl
+  | succ f =>
+    unfold eval
+    simp only [hname]
+    rw [runM_bind, runM_bind, Ecal.Ev.runM_tokOf, Ecal.Ev.runM_tokOf]
+    cases ht : n.tok with
+    | none => rfl
+    | some t =>
+      simp only
+      obtain ⟨x, hx⟩ := numberOf_pure t
+      rw [runM_bind, runM_bind, hx]
+      rfl
+
+/-- what `numOp` makes of the results of its two operands -/
+def combine (op : Float → Float → Val) (ca cb : Ecal.Parse.Node) (ra rb : Except Sig Val) : Except Sig Val :=
+  match ra with
+  | .error e => .error e
+  | .ok a =>
+    match rb with
+    | .error e => .error e
+    | .ok b =>
+      match a, b with
+      | .num x, .num y => .ok (op x y)
+      | .num _, _ => .error (rtErr "Operand is not a number" cb)
+      | _, _ => .error (rtErr "Operand is not a number" ca)
+
+theorem numOp_run (sc : Nat) (n ca cb : Ecal.Parse.Node) (op : Float → Float → Val)
+    (hch : n.children = [some ca, some cb]) (ha : Reads sc ca) (hb : Reads sc cb) (f : Nat) (s : St) :
+    runM (numOp (f + 1) sc n op) s =
+      (combine op ca cb (runM (eval f sc ca) s).1 (runM (eval f sc cb) s).1, s) := by
+  unfold numOp
+  have hl : (n.children.length != 2) = false := by rw [hch]; rfl
+  have h0 : n.children[0]? = some (some ca) := by rw [hch]; rfl
+  have h1 : n.children[1]? = some (some cb) := by rw [hch]; rfl
+  simp only [hl, Bool.false_eq_true, if_false]
+  rw [runM_bind, Ecal.Ev.runM_child, h0]
+  simp only
+  rw [runM_bind]
+  cases hea : runM (eval f sc ca) s with
+  | mk ra sa =>
+    have ea := ha f s ra sa hea
+    subst ea
+    cases ra with
+    | error e => rfl
+    | ok a =>
+      simp only
+      rw [runM_bind, Ecal.Ev.runM_child, h1]
+      simp only
+      rw [runM_bind]
+      cases heb : runM (eval f sc cb) sa with
+      | mk rb sb =>
+        have eb := hb f sa rb sb heb
+        subst eb
+        cases rb with
+        | error e => rfl
+        | ok b =>
+          simp only [combine]
+          cases a <;> cases b <;>
+            first
+            | rfl
+            | (rw [runM_bind, Ecal.Ev.runM_child]
+               first
+               | (rw [h0]; rfl)
+               | (rw [h1]; rfl))
+
+/-- **arithExpr_value_local** (the READ half, for expressions). The result of evaluating an arithmetic
+    expression over variables and literals with `eval` in scope `sc` — value, type error or fuel — is the
+    same in any two states that agree on `sc` and its ancestors: it depends on nothing else (no other
+    invocation's scope, no heap cell), for every fuel. -/
+theorem arithExpr_value_local (sc : Nat) (e : Ecal.Parse.Node) (h : ArithExpr e) : Local sc e := by
+  induction h with
+  | ident n t vb h1 h2 h3 h4 => exact local_plain_identifier sc n t vb h1 h2 h3 h4
+  | number n h1 => exact local_number sc n h1
+  | arith n ca cb hch hname hca hcb iha ihb =>
+    intro f st st' hag
+    cases f with
+    | zero => unfold eval; rfl
+    | succ f =>
+      obtain ⟨op, hop⟩ := Ecal.Lemmas.C06Sites.eval_arith f sc n ca cb hch hname
+      rw [hop]
+      cases f with
+      | zero => unfold numOp; rfl
+      | succ f =>
+        rw [numOp_run sc n ca cb op hch (arithExpr_reads sc ca hca) (arithExpr_reads sc cb hcb) f st',
+            numOp_run sc n ca cb op hch (arithExpr_reads sc ca hca) (arithExpr_reads sc cb hcb) f st]
+        simp only
+        rw [iha f st st' hag, ihb f st st' hag]
+
+/-- a `Frame` step of invocation A leaves every scope on the chain of a scope of invocation B as it was -/
+theorem frame_agree_other (snkA snkB scB : Nat) (st st' : St) (hf : Frame snkA st st')
+    (hB : Up st scB snkB) (hAB : ¬ Up st snkA snkB) (hBA : ¬ Up st snkB snkA) : AgreeOn st st' scB := by
+  intro t ht
+  apply hf.keep t
+  intro htA
+  rcases Up.comparable ht hB with h | h
+  · -- `t` is below B's sink
+    exact disjoint_subtrees st snkA snkB t h hAB hBA htA
+  · -- `t` is an ancestor of B's sink: then B's sink would be below A's
+    exact hBA (h.trans htA)
+
+/-- **computed_body_noninterference** (write half + read half, two invocations, about `eval`). Invocation A
+    evaluates a fragment body (`let v`, `v := e` with arithmetic `e`) in its sink scope; invocation B's
+    sink scope is neither above nor below A's. Then every arithmetic expression over variables and literals
+    that B evaluates in its sink scope or below gives exactly the same result — value or error, for every
+    fuel — after A's body as before it: what B reads (its own `event`, its locals, the variables of the
+    declaring chain) is not influenced by A. No hypothesis about what evaluation writes or reads. -/
+theorem computed_body_noninterference (snkA snkB scB f g : Nat) (names : List String)
+    (n e : Ecal.Parse.Node) (hname : n.name = "statements")
+    (hall : ∀ c ∈ n.children, ∃ c', c = some c' ∧ (IsLet c' ∨ IsAssignExpr names c'))
+    (st st' : St) (x : Val) (hctx : Ctx snkA snkA names st)
+    (h : runM (eval (f + 5) snkA n) st = (.ok x, st'))
+    (hB : Up st scB snkB) (hAB : ¬ Up st snkA snkB) (hBA : ¬ Up st snkB snkA) (he : ArithExpr e) :
+    (runM (eval g scB e) st').1 = (runM (eval g scB e) st).1 :=
+  arithExpr_value_local scB e he g st st'
+    (frame_agree_other snkA snkB scB st st'
+      (computed_body_frame snkA f snkA names n hname hall st st' x hctx h) hB hAB hBA)
+
+/-- non-vacuity of the two-invocation hypotheses on `demo2` (A's sink scope 1, B's sink scope 2): the context
+    `demo2_ctx`, the incomparability of the sinks, and B's expression `event + 1` -/
+example : Up demo2 2 2 ∧ ¬ Up demo2 1 2 ∧ ¬ Up demo2 2 1 ∧
+    ArithExpr (.mk "plus" none 0 .none .none [some (idNode 101), some numNode] []) :=
+  ⟨Up.refl 2, demo2_not_up 1 2 (Or.inl ⟨rfl, rfl⟩), demo2_not_up 2 1 (Or.inr ⟨rfl, rfl⟩),
+   ArithExpr.arith _ (idNode 101) numNode rfl (Or.inl rfl)
+     (ArithExpr.ident _ _ [101] rfl rfl rfl (by decide)) (ArithExpr.number _ rfl)⟩
 end Ecal.Props.C11Frame
